@@ -45,6 +45,23 @@ Section P.
     replace ((1 - loc) * b) with (b - loc * b) by ring.
     replace (b - (b - loc * b)) with (loc * b) by ring. unfold Rdiv. ring.
   Qed.
+
+  (* uniform scaling of the segment (semispan and chords by k; "area" in the code is the integral of the chord over the span fraction, i.e. the mean chord): same aspect ratio, same offsets as fractions of the chord *)
+  Theorem aspect_scale k b area : k <> 0 -> area <> 0 -> aspect (k * b) (k * area) = aspect b area.
+  Proof. intros Hk Ha. unfold aspect. rnum. field. split; assumption. Qed.
+  Theorem offset_scale k CLa RA sw b loc c : k <> 0 -> off CLa RA sw (k * b) loc (k * c) = off CLa RA sw b loc c.
+  Proof.
+    intros Hk. unfold offset_at. rnum.
+    destruct (Reqb c 0) eqn:E.
+    - apply Reqb_true in E. subst c. replace (k * 0) with 0 by ring. destruct (Reqb 0 0) eqn:E0; [reflexivity|].
+      exfalso. assert (H : Reqb 0 0 = true) by (apply Reqb_true; reflexivity). congruence.
+    - assert (Hc : c <> 0) by (intros ->; assert (H : Reqb 0 0 = true) by (apply Reqb_true; reflexivity); congruence).
+      destruct (Reqb (k * c) 0) eqn:E1.
+      + apply Reqb_true in E1. exfalso. apply Rmult_integral in E1. tauto.
+      + replace (loc * (k * b) / (k * c)) with (loc * b / c) by (field; split; assumption).
+        replace ((k * b - loc * (k * b)) / (k * c)) with ((b - loc * b) / c) by (field; split; assumption).
+        reflexivity.
+  Qed.
 End P.
 
 (* the interpolation weight sqrt(1 + t^2) - t with t = 2 pi sd x >= 0 *)
